@@ -95,7 +95,7 @@ TIGHT = set("()[]{},.")
 
 
 def text_of(toks, style):
-    seps = [" ", "\n", " // c\n", "  \t"]
+    seps = [" ", "\n", " // c\n", "  \t", " //\n"]        # (a comment may be empty)
     out = []
     for j, t in enumerate(toks):
         s = t["s"]
@@ -110,7 +110,7 @@ def text_of(toks, style):
             out.append(sep)
         out.append(s)
     # a comment may end the text without a line break after it
-    return "".join(out) + (" // c" if style % 7 == 3 else "")
+    return "".join(out) + (" // c" if style % 7 == 3 else " //" if style % 7 == 5 else "")
 
 
 def has_empty_list(t):
